@@ -12,6 +12,7 @@ Direct oracle generated models / functions / script functions x export options: 
 from __future__ import annotations
 
 import itertools
+import json
 import keyword
 import re
 import string
@@ -174,6 +175,9 @@ def analyze(proto):
 KNOWN_CLASSES = {
     "C13:rename:model-signature-not-renamed":
         "rename=True on a ModelProto: the def line keeps the cleaned input names while the body uses v1, v2, ... (Unbound name)",
+    "C13:rename:initializer-renamed-twice":
+        "rename=True on a model with initializers (visible once the signature is renamed): the Constant emitted for an initializer is named by "
+        "renaming the already renamed name, so it is defined as v<k+1> and referenced as v<k> (Unbound name)",
     "C13:skip_initializers:no-large-initializer:indented-source":
         "skip_initializers=True on a model without an initializer of more than 4 elements: the function is emitted indented at module level (IndentationError)",
     "C13:loop:counted-loop-in-model-graph:IndexError":
@@ -214,7 +218,12 @@ def classify(case, info, collide, opts, out, cleanup):
     if unbound:
         name = unbound.group(1)
         if opts["rename"] and is_model and re.fullmatch(r"v\d+", name):
-            return "C13:rename:model-signature-not-renamed"
+            m = re.search(r"@script\([^\n]*\)\n\s*def \w+\(([^)]*)\)", out["code"] or "")
+            signature_renamed = bool(m) and re.match(r"\s*(v\d+\b|$)", m.group(1)) is not None
+            if not signature_renamed:
+                return "C13:rename:model-signature-not-renamed"
+            if info["inits"]:
+                return "C13:rename:initializer-renamed-twice"
         if opts["inline_const"]:
             if name in ("nan", "inf") and info["nonfinite_inlinable"]:
                 return "C13:inline_const:non-finite-literal"
@@ -365,8 +374,52 @@ def _replay(case, opts, out):
         d["proto_text"] = onnx.printer.to_text(case["proto"])
     except Exception:  # noqa: BLE001
         d["proto_text"] = str(case["proto"])[:4000]
-    d["feeds"] = [{k: np.asarray(v).tolist() for k, v in f.items()} for f in case["feeds"]]
+    d["feeds"] = [{k: {"dtype": str(np.asarray(v).dtype), "shape": list(np.asarray(v).shape), "data": np.asarray(v).ravel().tolist()}
+                   for k, v in f.items()} for f in case["feeds"]]
+    import base64
+    d["proto_b64"] = base64.b64encode(case["proto"].SerializeToString()).decode()
+    if case["kind"] == "function":
+        d["iface_b64"] = [[base64.b64encode(v.SerializeToString()).decode() for v in side] for side in case["iface"]]
+        d["call_attrs"] = case.get("call_attrs")
+    d["large_inits"] = [[n, {"shape": list(v.shape), "data": v.ravel().tolist()}] for n, v in case.get("large_inits", [])]
     return d
+
+
+def replay(doc):
+    """./check C13 --replay <file>: re-run the recorded round trip on the current /repo and print the outcome."""
+    import base64
+    import tempfile
+
+    import onnx
+    from onnxscript.backend import onnx_export as E
+    r = doc["replay"]
+    if "proto_b64" not in r:
+        print(json.dumps(doc, indent=1)[:4000])
+        return 0
+    proto = onnx.ModelProto() if r["kind"] == "model" else onnx.FunctionProto()
+    proto.ParseFromString(base64.b64decode(r["proto_b64"]))
+    feeds = [{k: np.array(v["data"], dtype=v["dtype"]).reshape(v["shape"]) for k, v in f.items()} for f in r["feeds"]]
+    case = {"id": r["case"], "kind": r["kind"], "proto": proto, "feeds": feeds,
+            "large_inits": [(n, np.array(v["data"], dtype=np.float32).reshape(v["shape"])) for n, v in r.get("large_inits", [])]}
+    if r["kind"] == "function":
+        sides = []
+        for side in r["iface_b64"]:
+            vs = []
+            for b in side:
+                v = onnx.ValueInfoProto()
+                v.ParseFromString(base64.b64decode(b))
+                vs.append(v)
+            sides.append(vs)
+        case["iface"] = tuple(sides)
+        case["call_attrs"] = r.get("call_attrs")
+    out = R.round_trip(case, r["options"], tempfile.mkdtemp(prefix="c13-replay-"), R.reference_outputs(case), E._cleanup_variable_name,
+                       check_input_names=False)
+    print(f"key: {doc['key']}")
+    print(onnx.printer.to_text(proto))
+    print("options:", r["options"])
+    print("generated source:\n" + (out["code"] or "<none>"))
+    print(f"outcome: stage={out['stage']} exception={out['exc']} {out['msg']} {out['detail']}")
+    return 0 if out["stage"] == "ok" else 1
 
 
 def run_cases(ctx, cases, workdir, cleanup, stats):
@@ -407,6 +460,8 @@ def run_cases(ctx, cases, workdir, cleanup, stats):
         else:
             others = ALL_OPTS[1:]
             opt_list = [ALL_OPTS[0]] + ctx.rng.sample(others, 3)
+            if c["profile"] == "consts" and not any(o["inline_const"] and not o["rename"] for o in opt_list):
+                opt_list[-1] = dict(zip(OPT_NAMES, (False, ctx.rng.random() < 0.5, True, False)))
         if c["kind"] == "function":
             opt_list = [o for o in opt_list if not o["skip_initializers"]] or [ALL_OPTS[0]]
         for opts in opt_list:
@@ -498,6 +553,42 @@ def probes(ctx, workdir, cleanup, stats):
             ctx.violation("C13:names:non-ascii-alnum-not-identifier", KNOWN_CLASSES["C13:names:non-ascii-alnum-not-identifier"], _replay(case, none, out))
 
 
+def probe_operator_table(ctx, tab, workdir, cleanup, stats):
+    """Every entry of the use_operators table (regenerated from the source): a two-input model of that op must come
+    back equal when printed as the Python operator -- feeds include ties, so `>` vs `>=` is visible."""
+    import onnx
+    from onnx import TensorProto as TP
+    from onnx import helper as h
+    dead, printed = [], 0
+    a = np.array([[1, 2], [3, 0.5]], dtype=np.float32)
+    b = np.array([[2, 2], [1, 0.5]], dtype=np.float32)
+    for op, sym in tab["ops"]:
+        if not onnx.defs.has(op):
+            dead.append(op)  # e.g. "Lesser": no such operator, the entry can never fire
+            continue
+        boolean = op in ("And", "Or")
+        it = TP.BOOL if boolean else TP.FLOAT
+        ot = TP.BOOL if (boolean or op in ("Greater", "Less", "Equal", "GreaterOrEqual", "LessOrEqual")) else TP.FLOAT
+        g = h.make_graph([h.make_node(op, ["x", "y"], ["z"]), h.make_node("Identity", ["z"], ["w"])], "g",
+                         [h.make_tensor_value_info("x", it, [2, 2]), h.make_tensor_value_info("y", it, [2, 2])],
+                         [h.make_tensor_value_info("w", ot, [2, 2])])
+        m = h.make_model(g, opset_imports=[h.make_opsetid("", 18)], ir_version=9)
+        if boolean:
+            feeds = [{"x": a > 1.5, "y": b > 1.5}, {"x": a > 0, "y": b > 5}, {"x": a > 5, "y": b > 5}]
+        else:
+            feeds = [{"x": a, "y": b}, {"x": b, "y": a}, {"x": a, "y": a}]
+        case = {"id": f"probe:operator:{op}", "kind": "model", "proto": m, "feeds": feeds, "large_inits": [], "profile": "probe"}
+        opts = dict(zip(OPT_NAMES, (False, True, False, False)))
+        out = R.round_trip(case, opts, workdir, R.reference_outputs(case), cleanup)
+        stats["runs"] += 1
+        ctx.case(("probe", "operator", op, out["stage"]))
+        printed += bool(out["code"] and f"x {sym} y" in out["code"])
+        if out["stage"] != "ok":
+            ctx.violation(f"C13:use_operators:table-entry:{op}", f"{op} printed as `{sym}` does not come back: {out['stage']} {out['exc'] or ''} {out['msg'] or out['detail']}"[:300],
+                          _replay(case, opts, out))
+    ctx.cover(operator_table_entries=len(tab["ops"]), operator_entries_printed=printed, operator_entries_without_onnx_op=dead)
+
+
 # ----------------------------------------------------------------------------------------------- entry
 
 def run(ctx):
@@ -533,13 +624,14 @@ def run(ctx):
     run_cases(ctx, cases, workdir, cleanup, stats)
     R.unload(modname)
     probes(ctx, workdir, cleanup, stats)
+    probe_operator_table(ctx, tab, workdir, cleanup, stats)
 
     n_cases = len(cases)
     ctx.obligation("generator health: at most 10% of generated models rejected by onnx.checker / onnxruntime",
                    (rej1 + rej2 + stats["unrunnable_originals"]) <= 0.1 * max(1, n_cases),
                    f"rejected {rej1 + rej2}, unrunnable {stats['unrunnable_originals']} {stats.get('unrunnable_example', '')}")
-    ctx.obligation("oracle health: at least a quarter of the round trips complete and agree (the check is not blind)",
-                   stats["ok"] >= 0.25 * max(1, stats["runs"]), f"{stats['ok']} of {stats['runs']}")
+    ctx.obligation("oracle health: at least a fifth of the round trips complete and agree (the check is not blind)",
+                   stats["ok"] >= 0.2 * max(1, stats["runs"]), f"{stats['ok']} of {stats['runs']}")
     ctx.cover(models=len(models), functions=len(funcs), script_cases=len(scripts), hand_cases=len(hand),
               round_trips=stats["runs"], round_trips_equal=stats["ok"], by_option=stats["by_option"], equal_by_option=stats["ok_by_option"],
               failures_by_class=stats["failures"], models_with_name_collisions=stats["models_with_collisions"],
